@@ -114,7 +114,9 @@ func (n *Node) matchesAtEOFWithoutConsuming() bool {
 	switch n.K {
 	case KRef:
 		return n.Typ == "EOF"
-	case KLit, KNeg:
+	case KLit:
+		return n.Lit == "" && n.Typ == "" // the untyped empty literal matches any token, the EOF token included
+	case KNeg:
 		return false
 	case KSeq:
 		for _, k := range n.Kids {
@@ -168,7 +170,9 @@ func (n *Node) nullable(seen map[*Prod]bool) bool {
 		case '?', '*':
 			return true
 		case '!':
-			return false
+			// the group is satisfied by VALUES, not by consumption: a capture or sub-production that matched
+			// nothing still hands a value up
+			return n.X.valsOnEmpty(seen)
 		}
 		return n.X.nullable(seen)
 	case KLook:
@@ -179,6 +183,38 @@ func (n *Node) nullable(seen map[*Prod]bool) bool {
 		return n.Prod.nullable(seen)
 	}
 	panic("kind")
+}
+
+// valsOnEmpty: n can succeed without consuming a token and yield at least one value.
+func (n *Node) valsOnEmpty(seen map[*Prod]bool) bool {
+	switch n.K {
+	case KSeq:
+		any := false
+		for _, k := range n.Kids {
+			if !k.nullable(seen) {
+				return false
+			}
+			any = any || k.valsOnEmpty(seen)
+		}
+		return any
+	case KAlt:
+		for _, k := range n.Kids {
+			if k.nullable(seen) && k.valsOnEmpty(seen) {
+				return true
+			}
+		}
+		return false
+	case KGroup:
+		if n.Mode == '*' || n.Mode == '+' {
+			return false
+		}
+		return n.X.valsOnEmpty(seen)
+	case KCapture:
+		return n.X.nullable(seen)
+	case KSub:
+		return n.Prod.nullable(seen)
+	}
+	return false
 }
 
 func (n *Node) walk(f func(*Node), seen map[*Prod]bool) {
@@ -548,7 +584,7 @@ func (p *Prod) GoDecls() string {
 func (p *Prod) HasNullableRepetition() bool {
 	found := false
 	p.Walk(func(n *Node) {
-		if n.K == KGroup && (n.Mode == '*' || n.Mode == '+') && n.X.Nullable() {
+		if n.K == KGroup && (n.Mode == '*' || n.Mode == '+') && (n.X.Nullable() || n.X.matchesAtEOFWithoutConsuming()) {
 			found = true
 		}
 	})
